@@ -58,10 +58,10 @@ def _unary_oracle(args, obs):
 
 def c03_unary(k: int, t: T9, m: int, starts: int, finals: int) -> bool:
     """
+    pre: pinned(k=k, m=m, starts=starts, finals=finals, t0=t[0], t1=t[1])
     pre: 1 <= k <= 2 and 0 <= m <= 3 and 0 <= starts < 4 and 0 <= finals < 4
     pre: all(0 <= t[3 * i] < 2 and 0 <= t[3 * i + 1] <= k and 0 <= t[3 * i + 2] < 2 for i in range(3))
     pre: sparse_canonical(t, m)
-    pre: pinned(k=k, m=m, starts=starts, finals=finals, t0=t[0], t1=t[1])
     post: _
     """
     raw = (k, t, m, starts, finals)
@@ -139,11 +139,11 @@ PRE_DOC = """
 
 def c03_boolean(ta: T6, ma: int, sa: int, fa: int, tb: T6, mb: int, sb: int, fb: int, bsym: int) -> bool:
     """
+    pre: pinned(ma=ma, mb=mb, sa=sa, fa=fa, sb=sb, fb=fb, bsym=bsym)
     pre: 0 <= ma <= 2 and 0 <= mb <= 2 and 0 <= sa < 4 and 0 <= fa < 4 and 0 <= sb < 4 and 0 <= fb < 4
     pre: all(0 <= ta[3 * i] < 2 and 0 <= ta[3 * i + 1] <= 1 and 0 <= ta[3 * i + 2] < 2 for i in range(2))
     pre: all(0 <= tb[3 * i] < 2 and 0 <= tb[3 * i + 1] <= 1 and 0 <= tb[3 * i + 2] < 2 for i in range(2))
     pre: sparse_canonical(ta, ma) and sparse_canonical(tb, mb) and 0 <= bsym < 2
-    pre: pinned(ma=ma, mb=mb, sa=sa, fa=fa, sb=sb, fb=fb, bsym=bsym)
     post: _
     """
     raw = (ta, ma, sa, fa, tb, mb, sb, fb, bsym)
@@ -153,11 +153,11 @@ def c03_boolean(ta: T6, ma: int, sa: int, fa: int, tb: T6, mb: int, sb: int, fb:
 
 def c03_rational(ta: T6, ma: int, sa: int, fa: int, tb: T6, mb: int, sb: int, fb: int, bsym: int) -> bool:
     """
+    pre: pinned(ma=ma, mb=mb, sa=sa, fa=fa, sb=sb, fb=fb, bsym=bsym)
     pre: 0 <= ma <= 2 and 0 <= mb <= 2 and 0 <= sa < 4 and 0 <= fa < 4 and 0 <= sb < 4 and 0 <= fb < 4
     pre: all(0 <= ta[3 * i] < 2 and 0 <= ta[3 * i + 1] <= 1 and 0 <= ta[3 * i + 2] < 2 for i in range(2))
     pre: all(0 <= tb[3 * i] < 2 and 0 <= tb[3 * i + 1] <= 1 and 0 <= tb[3 * i + 2] < 2 for i in range(2))
     pre: sparse_canonical(ta, ma) and sparse_canonical(tb, mb) and 0 <= bsym < 2
-    pre: pinned(ma=ma, mb=mb, sa=sa, fa=fa, sb=sb, fb=fb, bsym=bsym)
     post: _
     """
     raw = (ta, ma, sa, fa, tb, mb, sb, fb, bsym)
@@ -166,10 +166,10 @@ def c03_rational(ta: T6, ma: int, sa: int, fa: int, tb: T6, mb: int, sb: int, fb
 
 def c03_self(ta: T9, ma: int, sa: int, fa: int) -> bool:
     """
+    pre: pinned(ma=ma, sa=sa, fa=fa)
     pre: 0 <= ma <= 3 and 0 <= sa < 4 and 0 <= fa < 4
     pre: all(0 <= ta[3 * i] < 2 and 0 <= ta[3 * i + 1] <= 1 and 0 <= ta[3 * i + 2] < 2 for i in range(3))
     pre: sparse_canonical(ta, ma)
-    pre: pinned(ma=ma, sa=sa, fa=fa)
     post: _
     """
     raw = (ta, ma, sa, fa)
